@@ -433,7 +433,10 @@ def r2_overheads(ck, cx):
 
     def _priv(call, fr, path):
         # private module-level helpers of transaction.py (called by name or through a row of a constant table) belong to _recv
-        return _base(call, fr, path) if isinstance(call.func, (ast.Name, ast.Subscript)) else None
+        if isinstance(call.func, (ast.Name, ast.Subscript)):
+            return _base(call, fr, path)
+        return _txh(call, fr, path)       # ... and so do private methods of the manager that are not modelled on their own
+    _txh = cx.tx_helper_resolver()
     for p in cx.enum(f3, tm, max_depth=1, max_paths=400000, resolver=_priv):
         annotate(p, heap=False)
         if contradictory(p):
